@@ -182,6 +182,8 @@ where
                 }
                 Err(Traversal::TooShort(depth)) => {
                     // Target type can not hold keys
+                    // Continue with the next sibling at the failing depth
+                    self.depth = depth.max(self.root);
                     Some(Err(depth))
                 }
                 // TooLong: impossible due to Consume
